@@ -1,20 +1,34 @@
-(* The batch window of the liquidation sweeps, exactly as coded:
+(* The batch window of the liquidation sweeps, exactly as coded AFTER fix C15-F2
+   (fixes/C15-F2/patch.diff: the helper treats a wrapped  offset + batchSize  like an end beyond
+   the list):
    x/liquidation/types/liquidations.go:21 and x/liquidationsV2/types/offset.go:19
    (GetSliceStartEndForLiquidations, identical text in both generations), the caller's
    "start == end -> offset := 0, recompute" step (liquidate_vaults.go:43-47, liquidate.go:52-56,
-   :242-246, liquidate_borrow.go:26-31) and the Go slice expression  total[start:end].
+   :242-246, liquidate_borrow.go:26-31), the caller's  int(uint64)  conversions of the stored
+   counter / offset / batch size, and the Go slice expression  total[start:end].
    Go's [int] is int64 on the target: [offset + batchSize] wraps. *)
 From Comdex Require Import Lib.Base.
 
 Definition int_max : Z := 9223372036854775807.
+Definition uint64_max : Z := 18446744073709551615.
 Definition wrap64 (z : Z) : Z := ((z + 9223372036854775808) mod 18446744073709551616) - 9223372036854775808.
 
-(* func GetSliceStartEndForLiquidations(sliceLen, offset, batchSize int) (int, int) *)
+(* Go's conversion int(u) of a uint64: the same 64 bits read as two's complement - values >= 2^63
+   become negative (int(params.LiquidationBatchSize), int(liquidationOffsetHolder.CurrentOffset),
+   int(k.vault.GetLengthOfVault(ctx))) *)
+Definition int_of_uint64 (u : Z) : Z := wrap64 u.
+
+(* func GetSliceStartEndForLiquidations(sliceLen, offset, batchSize int) (int, int)
+     if offset >= sliceLen || offset < 0 || batchSize < 0 { return sliceLen, sliceLen }
+     start := offset
+     end := offset + batchSize
+     if end >= sliceLen || end < start { return start, sliceLen }      <- "|| end < start": fix C15-F2
+     return start, end *)
 Definition slice_bounds (len off batch : Z) : Z * Z :=
   if (off >=? len) || (off <? 0) || (batch <? 0) then (len, len)
   else
     let e := wrap64 (off + batch) in
-    if e >=? len then (off, len) else (off, e).
+    if (e >=? len) || (e <? off) then (off, len) else (off, e).
 
 (* the caller: start, end := f(len, off, batch); if start == end { off = 0; start, end = f(len, 0, batch) } *)
 Definition sweep_window (len off batch : Z) : Z * Z :=
@@ -30,9 +44,9 @@ Definition go_slice {A} (zero : A) (l : list A) (cap a b : Z) : option (list A) 
   then Some (firstn (Z.to_nat (b - a)) (skipn (Z.to_nat a) (l ++ repeat zero (Z.to_nat (cap - zlen l)))))
   else None.
 
-(* one sweep step as the code performs it: [counter] is what the code passes as sliceLen (the
-   stored LengthOfVault counter for the vault sweeps, len(borrows) for the borrow sweeps), [cap]
-   the capacity of the list that is sliced.  None = the hook panics (nothing wraps this). *)
+(* one sweep step as the code performs it, on ints: [counter] is what the code passes as sliceLen
+   (the stored LengthOfVault counter for the vault sweeps, len(borrows) for the borrow sweeps),
+   [cap] the capacity of the list that is sliced.  None = the hook panics (nothing wraps this). *)
 Definition sweep_slice {A} (zero : A) (l : list A) (cap counter off batch : Z) : option (list A * Z) :=
   let '(s, e) := sweep_window counter off batch in
   match go_slice zero l cap s e with
@@ -40,6 +54,16 @@ Definition sweep_slice {A} (zero : A) (l : list A) (cap counter off batch : Z) :
   | None => None
   end.
 
-(* executable class of the inputs on which the slice expression panics *)
-Definition kf_C15_2 (cap counter off batch : Z) : bool :=
+(* the same step from the STORED values (all three are uint64 in the store / parameter store and
+   are converted with int() by the caller) *)
+Definition sweep_slice_stored {A} (zero : A) (l : list A) (cap counter_u off_u batch_u : Z) : option (list A * Z) :=
+  sweep_slice zero l cap (int_of_uint64 counter_u) (int_of_uint64 off_u) (int_of_uint64 batch_u).
+
+(* the model's prediction "the slice expression panics", used by the runner to VALIDATE the model
+   of the slice expression against the implementation - also on states the harness fabricates
+   (a counter set directly through the keeper).  Not a known-finding class: by c15_slice_panics_iff
+   it is true only if counter > cap, which no reachable state satisfies. *)
+Definition slice_panics (cap counter off batch : Z) : bool :=
   let '(s, e) := sweep_window counter off batch in negb (go_slice_ok cap s e).
+Definition slice_panics_stored (cap counter_u off_u batch_u : Z) : bool :=
+  slice_panics cap (int_of_uint64 counter_u) (int_of_uint64 off_u) (int_of_uint64 batch_u).
